@@ -39,20 +39,31 @@ type vrfDoer struct {
 	req     *http.Request
 }
 
-var vrfRoutes sync.Once
+var (
+	vrfRoutesMu sync.Mutex
+	vrfRoutes   = map[string]bool{}
+)
 
-// vrfRouted says whether the server hands the request to a mailbox route and the handler then sees
-// the given mailbox name. The handler's view of the route variables is computed by the real
-// web.NewContext (web.VerifRouteVars). Natively the real gorilla/mux router - web.Router, set up
-// with the real route table the way server/lifecycle.go does - is asked for the match. Under the
-// engine gorilla/mux's matching (regular expressions) is outside the encoding and its documented
-// rule stands in: the router matches the path segment by segment, a route variable is one segment,
-// so /api/v1/mailbox/{name}[/{id}[/source]] has exactly 4, 5 or 6 segments after the leading slash;
-// the path matched is the decoded one, or the encoded one if the router was switched to encoded
-// paths - which is read from the router object the real initialiser of package web built.
-func vrfRouted(d *vrfDoer, name string, extra int) bool {
+// vrfRouted says whether the server (configured with base path bp) hands the request to a mailbox
+// route and the handler then sees the given mailbox name. The handler's view of the route
+// variables is computed by the real web.NewContext (web.VerifRouteVars), the prefix of the route
+// templates by the real web.RoutePrefixer. Natively the real gorilla/mux router - web.Router, set
+// up with the real route table the way server/lifecycle.go does - is asked for the match. Under
+// the engine gorilla/mux's matching (regular expressions) is outside the encoding and its
+// documented rule stands in: the template prefix is matched literally, then the path segment by
+// segment, a route variable being one segment, so v1/mailbox/{name}[/{id}[/source]] has exactly 3,
+// 4 or 5 segments; the path matched is the decoded one, or the encoded one if the router was
+// switched to encoded paths - which is read from the router object the real initialiser of
+// package web built.
+func vrfRouted(d *vrfDoer, bp, name string, extra int) bool {
+	tpl := web.RoutePrefixer(bp)("/api/")
 	if !vrf.Symbolic() {
-		vrfRoutes.Do(func() { rest.SetupRoutes(web.Router.PathPrefix("/api/").Subrouter()) })
+		vrfRoutesMu.Lock()
+		if !vrfRoutes[bp] {
+			vrfRoutes[bp] = true
+			rest.SetupRoutes(web.Router.PathPrefix(tpl).Subrouter())
+		}
+		vrfRoutesMu.Unlock()
 		var m mux.RouteMatch
 		if !web.Router.Match(d.req, &m) || m.MatchErr != nil {
 			return false
@@ -63,8 +74,11 @@ func vrfRouted(d *vrfDoer, name string, extra int) bool {
 	if vrf.PeekBool(web.Router, "useEncodedPath") {
 		path = d.rawPath
 	}
+	if len(path) < len(tpl) || path[:len(tpl)] != tpl {
+		return false
+	}
 	seg, cur := []string{}, ""
-	for i := 1; i < len(path); i++ {
+	for i := len(tpl); i < len(path); i++ {
 		if path[i] == '/' {
 			seg = append(seg, cur)
 			cur = ""
@@ -73,10 +87,10 @@ func vrfRouted(d *vrfDoer, name string, extra int) bool {
 		}
 	}
 	seg = append(seg, cur)
-	if len(seg) != 4+extra || seg[0] != "api" || seg[1] != "v1" || seg[2] != "mailbox" {
+	if len(seg) != 3+extra || seg[0] != "v1" || seg[1] != "mailbox" {
 		return false
 	}
-	return web.VerifRouteVars(d.req, map[string]string{"name": seg[3]})["name"] == name
+	return web.VerifRouteVars(d.req, map[string]string{"name": seg[2]})["name"] == name
 }
 
 func (d *vrfDoer) Do(req *http.Request) (*http.Response, error) {
@@ -92,14 +106,20 @@ func (d *vrfDoer) Do(req *http.Request) (*http.Response, error) {
 // VerifC14Client: every client operation issues the request the server's route for that operation
 // expects: method, path /api/v1/mailbox/<name>[/<id>[/source]] whose name segment decodes to the
 // mailbox name, and — for mark-seen — a JSON body (the handler rejects a request without one).
-func VerifC14Client(op int) {
+func VerifC14Client(op int, bpi int) {
 	// names with URL-significant characters that can receive mail (the symbolic treatment of the
 	// escaping itself is VerifC14Escape; the full request construction in net/url + net/http is
 	// executed on these concrete names)
 	names := []string{"box", "a+b", "x%41y", "50%off", "a@b.org", "q?x=1", "a#b", "we/ird", "a&b=c"}
 	name := names[vrf.Fork(vrf.Choose("name", len(names)))]
 	d := &vrfDoer{}
-	base, _ := url.Parse("http://h:9000/")
+	// the server's base path and the base URL a user of the client would configure for it
+	bp := []string{"", "inbucket", "my app"}[bpi]
+	base, _ := url.Parse([]string{"http://h:9000/", "http://h:9000/inbucket/", "http://h:9000/my%20app"}[bpi])
+	root := "/"
+	if bp != "" {
+		root = "/" + bp + "/"
+	}
 	c := &Client{restClient{client: d, baseURL: base}}
 	wantMethod, wantSuffix, needBody := "GET", "", false
 	switch op {
@@ -124,14 +144,14 @@ func VerifC14Client(op int) {
 	vrf.Cover("request-issued")
 	vrf.Assert("one-request", d.calls == 1)
 	vrf.Assert("method", d.method == wantMethod)
-	vrf.Assert("decoded-path", d.path == "/api/v1/mailbox/"+name+wantSuffix)
+	vrf.Assert("decoded-path", d.path == root+"api/v1/mailbox/"+name+wantSuffix)
 	extra := 0
 	if wantSuffix == "/7" {
 		extra = 1
 	} else if wantSuffix == "/7/source" {
 		extra = 2
 	}
-	vrf.Assert("server-routes-the-request-to-the-mailbox", vrfRouted(d, name, extra))
+	vrf.Assert("server-routes-the-request-to-the-mailbox", vrfRouted(d, bp, name, extra))
 	if needBody {
 		vrf.Assert("mark-seen-sends-a-body", d.hasBody)
 	}
